@@ -33,7 +33,7 @@ superoperator(circuit)        -> ndarray laid out like CQMap.array
 cq_shape(dom_kinds, cod_kinds)-> the shape of that array
 adjoint(array, dom_kinds, cod_kinds) -> array of the adjoint map (CQMap layout)
 partial_trace(array, kinds, drop)    -> CQ-state array with some wires removed
-distribution(circuit)         -> {bitstring: probability} of
+distribution(circuit, real=False) -> {bitstring: weight} of
                                  "prepare 0 on every input, run, discard qubits"
 zero_state(kinds) / basis_states(kinds)
 
@@ -439,11 +439,13 @@ def partial_trace(array, kinds_, drop):
     return out, kept_kinds
 
 
-def distribution(circuit):
+def distribution(circuit, real=False):
     """
     Probability (more generally: weight) of every string of output bits when
-    every input wire is prepared in 0 and every output qubit is discarded.
-    Returns {bitstring: complex weight}, every string present.
+    every input wire is prepared in 0 and every output qubit is discarded
+    (for a closed circuit with only bits as outputs: its distribution).
+    Returns {bitstring: complex weight}, every string present (zeros too);
+    with real=True the weights are floats (imaginary parts dropped).
     """
     state = run(circuit, zero_state(kinds(circuit.dom)))
     cl, qu = split(state.kinds)
@@ -458,7 +460,7 @@ def distribution(circuit):
             for pos, v in zip(qu, q):
                 full[pos] = v
             total = total + ops[index(full), index(full)]
-        out[c] = complex(total)
+        out[c] = float(np.real(total)) if real else complex(total)
     return out
 
 
